@@ -14,6 +14,7 @@ import (
 	"container/list"
 	"context"
 	"fmt"
+	"sort"
 	"sync"
 
 	"github.com/ipfs/go-cid"
@@ -151,6 +152,8 @@ type mergeProcessor struct {
 
 	// composites is a list of composites that need to be merged.
 	composites *list.List
+	// queued contains the CIDs of the blocks in composites.
+	queued map[cid.Cid]struct{}
 	// missingEncryptionBlocks is a list of blocks that we failed to fetch
 	missingEncryptionBlocks map[cidlink.Link]struct{}
 	// availableEncryptionBlocks is a list of blocks that we have successfully fetched
@@ -175,19 +178,36 @@ func (db *DB) newMergeProcessor(
 		col:                       col,
 		docIDs:                    make(map[string]struct{}),
 		composites:                list.New(),
+		queued:                    make(map[cid.Cid]struct{}),
 		missingEncryptionBlocks:   make(map[cidlink.Link]struct{}),
 		availableEncryptionBlocks: make(map[cidlink.Link]*coreblock.Encryption),
 	}, nil
 }
 
 type mergeTarget struct {
-	heads      map[cid.Cid]*coreblock.Block
+	// heads contains blocks that are known to have been merged already: the current heads
+	// of the DAG plus every generation of their ancestors that has been walked back so far.
+	heads map[cid.Cid]*coreblock.Block
+	// frontier is the most recently added generation of heads.
+	frontier map[cid.Cid]*coreblock.Block
+	// headHeight is the greatest height within the frontier. Every merged block that is
+	// not in heads is an ancestor of a frontier block and therefore strictly below it.
 	headHeight uint64
 }
 
 func newMergeTarget() mergeTarget {
 	return mergeTarget{
-		heads: make(map[cid.Cid]*coreblock.Block),
+		heads:    make(map[cid.Cid]*coreblock.Block),
+		frontier: make(map[cid.Cid]*coreblock.Block),
+	}
+}
+
+// add adds the given block to the newest generation of the merge target.
+func (mt *mergeTarget) add(c cid.Cid, block *coreblock.Block) {
+	mt.heads[c] = block
+	mt.frontier[c] = block
+	if height := block.Delta.GetPriority(); height > mt.headHeight {
+		mt.headHeight = height
 	}
 }
 
@@ -200,6 +220,10 @@ func (mp *mergeProcessor) loadComposites(
 ) error {
 	if _, ok := mt.heads[blockCid]; ok {
 		// We've already processed this block.
+		return nil
+	}
+	if _, ok := mp.queued[blockCid]; ok {
+		// We've already queued this block (it was reached through another branch).
 		return nil
 	}
 
@@ -217,6 +241,7 @@ func (mp *mergeProcessor) loadComposites(
 	// of the composite DAG. However, the new block and its children might have branched off from an older block.
 	// In this case, we also need to walk back the merge target's DAG until we reach a common block.
 	if block.Delta.GetPriority() >= mt.headHeight {
+		mp.queued[blockCid] = struct{}{}
 		mp.composites.PushFront(block)
 		for _, head := range block.Heads {
 			err := mp.loadComposites(ctx, head.Cid, mt)
@@ -225,8 +250,14 @@ func (mp *mergeProcessor) loadComposites(
 			}
 		}
 	} else {
+		// Walk the merge target back by one generation. The generations walked so far stay in the target:
+		// the heads of the DAG may have different heights, so a block of an older generation can be
+		// reached again further down the walk.
 		newMT := newMergeTarget()
-		for _, b := range mt.heads {
+		for c, b := range mt.heads {
+			newMT.heads[c] = b
+		}
+		for _, b := range mt.frontier {
 			for _, link := range b.Heads {
 				nd, err := mp.blockLS.Load(linking.LinkContext{Ctx: ctx}, link, coreblock.BlockSchemaPrototype)
 				if err != nil {
@@ -238,8 +269,7 @@ func (mp *mergeProcessor) loadComposites(
 					return err
 				}
 
-				newMT.heads[link.Cid] = childBlock
-				newMT.headHeight = childBlock.Delta.GetPriority()
+				newMT.add(link.Cid, childBlock)
 			}
 		}
 		return mp.loadComposites(ctx, blockCid, newMT)
@@ -248,6 +278,20 @@ func (mp *mergeProcessor) loadComposites(
 }
 
 func (mp *mergeProcessor) mergeComposites(ctx context.Context) error {
+	// A block that is reachable through several branches is queued once, at the position of its first
+	// visit. Ordering by height puts every block after all of its ancestors again.
+	blocks := make([]*coreblock.Block, 0, mp.composites.Len())
+	for e := mp.composites.Front(); e != nil; e = e.Next() {
+		blocks = append(blocks, e.Value.(*coreblock.Block)) //nolint:forcetypeassert
+	}
+	sort.SliceStable(blocks, func(i, j int) bool {
+		return blocks[i].Delta.GetPriority() < blocks[j].Delta.GetPriority()
+	})
+	mp.composites.Init()
+	for _, block := range blocks {
+		mp.composites.PushBack(block)
+	}
+
 	for e := mp.composites.Front(); e != nil; e = e.Next() {
 		block := e.Value.(*coreblock.Block)
 		link, err := block.GenerateLink()
@@ -543,9 +587,7 @@ func getHeadsAsMergeTarget(ctx context.Context, key keys.HeadstoreKey) (mergeTar
 			return mergeTarget{}, err
 		}
 
-		mt.heads[cid] = block
-		// All heads have the same height so overwriting is ok.
-		mt.headHeight = block.Delta.GetPriority()
+		mt.add(cid, block)
 	}
 	return mt, nil
 }
